@@ -60,6 +60,12 @@ def run(tier, seed):
     # the node's own read loop (pass-through frames only)
     for s in pick(pt)[: (200 if thorough else 30)]:
         scen.append({**s, "cut": rng.choice([0, 3]), "via_read_half": True})
+    # slow delivery: the first frame's length prefix arrives late in the read-timeout window and its body after the window would have
+    # ended, with no single wait longer than the timeout (both APIs)
+    slow_src = [s for s in pick(pt) if s["hist"] and s["hist"][0][0] == "pt"][:2]
+    for s in slow_src:
+        scen.append({**s, "cut": 0, "via_read_half": True, "slow": True})
+        scen.append({**s, "cut": 0, "via_read_half": False, "slow": True})
     for i, s in enumerate(scen):
         s["id"] = i
     sp = os.path.join(lib.outdir(PID), "scenarios.ndjson")
@@ -71,8 +77,8 @@ def run(tier, seed):
         raise lib.ToolError("receive harness did not complete")
     for o in obs:
         s = scen[o["id"]]
-        v.case(json.dumps([s["hist"], s["header_mode"], s["cut"], s["via_read_half"]]))
-        case = {"frames": s["hist"], "header_mode": s["header_mode"], "segmentation": s["cut"], "api": "receive_message_from_read_half" if s["via_read_half"] else "receive_message"}
+        v.case(json.dumps([s["hist"], s["header_mode"], s["cut"], s["via_read_half"], s.get("slow", False)]))
+        case = {"frames": s["hist"], "header_mode": s["header_mode"], "segmentation": s["cut"], "api": "receive_message_from_read_half" if s["via_read_half"] else "receive_message", "slow_delivery": s.get("slow", False)}
         if "tool_error" in o:
             raise lib.ToolError("receive harness could not connect")
         if o["panicked"]:
